@@ -288,6 +288,8 @@ class State:
         self.trace = []           # human-readable path description
         self.alloc = None         # z3 Int: allocation frontier (refs >= alloc are fresh)
         self.entry_mark = 0       # index into pc where the current function body starts
+        self.entry_serial = 0     # fresh-constant serial at entry of the current function body
+        self.nondec = set()       # indices into pc of assumptions that are not branch decisions
 
     def fork(self):
         s = State.__new__(State)
@@ -302,12 +304,22 @@ class State:
         s.trace = list(self.trace)
         s.alloc = self.alloc
         s.entry_mark = self.entry_mark
+        s.entry_serial = self.entry_serial
+        s.nondec = set(self.nondec)
         return s
 
-    def assume(self, c, why=None):
+    def assume(self, c, why=None, decision=True):
+        """decision=False marks consequences/definitions (callee postconditions, definitional facts,
+        invariants) as opposed to branch decisions; only decisions (plus the definitions of the auxiliary
+        constants they mention) make up the condition under which a value is yielded."""
+        if not decision:
+            self.nondec.add(len(self.pc))
         self.pc.append(c)
         if why:
             self.trace.append(why)
+
+    def define(self, c):
+        self.assume(c, decision=False)
 
     def assumptions(self):
         return list(self.facts) + list(self.pc)
